@@ -86,6 +86,7 @@ class Aggregate:
         self.harness_errors = []
         self.samples = []
         self.run_wall = 0.0
+        self.max_run_wall = 0.0
 
     def add(self, res, role):
         with self.lock:
@@ -98,6 +99,7 @@ class Aggregate:
             self.digests[role][res["run_seed"]] = (res["log_digest"][:16], res["ops_digest"][:16])
             self.hashseeds[role][res["run_seed"]] = res.get("hashseed")
             self.run_wall += res.get("wall_s", 0)
+            self.max_run_wall = max(self.max_run_wall, res.get("wall_s", 0))
             if role != "A":
                 if st == "violation" and role == "B":
                     # a violation only the twin sees is still a violation
@@ -510,6 +512,8 @@ def write_evidence(args, agg, hellos, wall, n_runs, n_twins, n_echo, lines, rc):
             "distinct_states_estimate": agg.states.estimate(),
             "distinct_states_measure": "linear-counting estimate over hashes of (digest of every shared argument object, per live handle: spec and set of paths read so far), sampled after every step",
             "runs_truncated_by_step_cap": agg.truncated,
+            "slowest_run_wall_s": round(agg.max_run_wall, 2),
+            "per_run_timeout_s": 40,
             "violating_runs": agg.violation_count,
             "harness_errors": sum(v for k, v in agg.n.items() if k.endswith("harness_error")),
             "components": {"real": ["cr.cube (working tree of %s)" % args.repo, "numpy", "scipy", "json"], "stub": []},
